@@ -62,6 +62,27 @@ fn so_sign(m: &[u8], sk: &[u8; 64], mode: &str) -> Sig {
     sig
 }
 
+/// S = H([dom2] R A M) * a mod L for the secret scalar a of `kseed`: the response of a signer whose nonce is zero
+fn zero_nonce_s(r: &[u8; 32], pk: &[u8; 32], kseed: &[u8; 32], msg: &[u8], mode: &str) -> [u8; 32] {
+    let sha = |b: &[u8]| { let mut h = [0u8; 64]; unsafe { so::crypto_hash_sha512(h.as_mut_ptr(), b.as_ptr(), b.len() as u64) }; h };
+    let mut a = [0u8; 32];
+    a.copy_from_slice(&sha(kseed)[..32]);
+    a[0] &= 248; a[31] &= 127; a[31] |= 64;
+    let mut buf: Vec<u8> = vec![];
+    if mode != "pure" { buf.extend_from_slice(b"SigEd25519 no Ed25519 collisions"); buf.push(1); buf.push(0); }
+    buf.extend_from_slice(r); buf.extend_from_slice(pk);
+    if mode != "pure" { buf.extend_from_slice(&sha(msg)); } else { buf.extend_from_slice(msg); }
+    let kh = sha(&buf);
+    let (mut k, mut ar, mut s) = ([0u8; 32], [0u8; 32], [0u8; 32]);
+    let mut a64 = [0u8; 64]; a64[..32].copy_from_slice(&a);
+    unsafe {
+        so::crypto_core_ed25519_scalar_reduce(k.as_mut_ptr(), kh.as_ptr());
+        so::crypto_core_ed25519_scalar_reduce(ar.as_mut_ptr(), a64.as_ptr());
+        so::crypto_core_ed25519_scalar_mul(s.as_mut_ptr(), k.as_ptr(), ar.as_ptr());
+    }
+    s
+}
+
 /// `sign <table.json> <out.json> <seed> <Lmax> <nseeds> <first> <stride>`
 pub fn cmd_sign(args: &[String]) {
     let table: Value = serde_json::from_str(&std::fs::read_to_string(&args[0]).unwrap()).unwrap();
@@ -127,6 +148,13 @@ pub fn cmd_sign(args: &[String]) {
                         let mut s = [0u8; 64]; s[..32].copy_from_slice(&r); s[32..].copy_from_slice(&sc);
                         fam.push((s, msg.clone(), *a, "A small order, R = [S]B".into()));
                     } }
+                    // honest A, R small order, S = k*a mod L with k = H([dom2] R A M): [S]B = [k]A, so the equation holds
+                    // exactly when R is the neutral element, and up to the cofactor for every small-order R
+                    for r in small.iter() {
+                        let mut s = [0u8; 64]; s[..32].copy_from_slice(r);
+                        s[32..].copy_from_slice(&zero_nonce_s(r, &pk, &kseed, &msg, verified));
+                        fam.push((s, msg.clone(), pk, "honest A, R small order, S = k*a".into()));
+                    }
                 } else if deviations == 0 {
                     fam.push((base, msg.clone(), pk, "honest".into()));
                 } else if rc == "bit_flipped" { for b in 0..256 { if thin && b % 37 != 0 { continue; } let mut s = base; s[b / 8] ^= 1 << (b % 8); fam.push((s, msg.clone(), pk, format!("R bit {}", b))); } }
